@@ -1,7 +1,12 @@
 (* Model of the TEXT of the CSV output (utils/output_utils.py: blob_to_csv ends with
-   `csv_df.to_csv(dst, index=False, float_format='%.4f')`) and of the reader the documentation
-   tells users to apply to it (`pandas.read_csv(path, comment='#')`, docs/output.md and the
-   example notebooks).
+   `csv_df.to_csv(dst, index=False, float_format='%.4f')`) and of the TOKENIZER of the reader the
+   example notebooks apply to it (examples/explore_mapping_results.ipynb and
+   examples/full_mapping_pipeline.ipynb: `pd.read_csv(path, comment='#')`; docs/output.md describes the
+   file and names no reader).  What is modelled is the splitting of the text into rows of fields, i.e.
+   what read_csv(path, comment='#', dtype=str, keep_default_na=False) returns.  With pandas' DEFAULTS
+   the fields are afterwards type-inferred column by column ('NA' / 'None' / 'nan' / '' -> NaN,
+   '007' -> 7, '1e5' -> 100000.0, 'True' -> bool): that inference is a choice of the reader's caller,
+   not a property of the file, and is not modelled (harness: observed, not judged).
 
    DQUOTE below stands for the double-quote character (code 34).  Strings are lists of code points (Z).  A table is a list of rows, a row a list of fields;
    the header line is simply the first row (pandas writes it through the same csv.writer).
@@ -17,20 +22,55 @@
    with delimiter ',', quotechar DQUOTE, doublequote, skip_blank_lines, no skipinitialspace, optional
    comment character '#'), state by state.  It returns the rows of fields (what read_csv with
    dtype=str, keep_default_na=False, header=None shows, before padding rows to a common width).
-   One known deviation, excluded from the correspondence check: when a line starts with blanks /
-   tabs and is not blank, the C tokenizer backtracks to the previous '\n' -- which re-reads lines
-   that ended in a bare '\r'; here the characters read so far are simply kept (identical unless a
-   bare '\r' line end precedes such a line).
+   Known deviations, both in the WHITESPACE_LINE state (a line that starts with blanks / tabs and is
+   not blank): the C tokenizer backtracks to the previous '\n' INSIDE ITS CURRENT 262144-BYTE CHUNK and
+   re-reads from there; here the characters read so far are simply kept.  (i) the backtracking re-reads
+   lines that ended in a bare '\r' (excluded from the correspondence check); (ii) when the leading
+   blanks straddle a chunk boundary the blanks before the boundary are LOST by pandas (observed: row
+   '   cell 009354,...' at offset 262142 reads as ' cell 009354'; finding F32).  well_shaped therefore
+   excludes rows whose first field starts with an unquoted blank / tab: on all other written text the
+   WHITESPACE_LINE state is never entered and the model is the tokenizer wherever the chunk boundaries
+   fall (every other state carries over a boundary unchanged).
 
    '%.4f' % x of a finite double x = m * 2^e given exactly: the correctly rounded (ties to even on
    the exact value) number of 1/10000 units, fmt4k = Output.fmt4 of the exact rational, and its
    rendering as digits.  Definitions only. *)
 From Coq Require Import ZArith List Bool.
-From CTM Require Import Base.Sx Model.Output.
+From Coq Require String Ascii.
+From CTM Require Import Base.Sx Base.SortX Model.Output.
 Import ListNotations.
 Open Scope Z_scope.
 
 Definition str := list Z.
+
+(* the literal pieces of text the writer uses, as code points (computed once from Coq string literals) *)
+Module Lit.
+  Import String Ascii.
+  Fixpoint zs (s : string) : list Z :=
+    match s with EmptyString => [] | String a t => Z.of_N (N_of_ascii a) :: zs t end.
+  Definition cell_id := Eval compute in zs "cell_id".
+  Definition label := Eval compute in zs "_label".
+  Definition name := Eval compute in zs "_name".
+  Definition alias := Eval compute in zs "_alias".
+  Definition bootstrapping_probability := Eval compute in zs "bootstrapping_probability".
+  Definition avg_correlation := Eval compute in zs "avg_correlation".
+  Definition correlation_coefficient := Eval compute in zs "correlation_coefficient".
+  Definition aggregate_probability := Eval compute in zs "aggregate_probability".
+  Definition directly_assigned := Eval compute in zs "directly_assigned".
+  Definition runner_up_assignment := Eval compute in zs "runner_up_assignment".
+  Definition runner_up_correlation := Eval compute in zs "runner_up_correlation".
+  Definition runner_up_probability := Eval compute in zs "runner_up_probability".
+  Definition true_ := Eval compute in zs "True".
+  Definition false_ := Eval compute in zs "False".
+  Definition metadata := Eval compute in zs " metadata = ".
+  Definition hierarchy := Eval compute in zs " taxonomy hierarchy = ".
+  Definition readable := Eval compute in zs " readable taxonomy hierarchy = ".
+  Definition algo_corr := Eval compute in zs " algorithm: 'correlation';".
+  Definition algo_hier := Eval compute in zs " algorithm: 'hierarchical';".
+  Definition codebase := Eval compute in zs " codebase: ".
+  Definition version := Eval compute in zs "; version: ".
+  Definition hexdigits := Eval compute in zs "0123456789abcdef".
+End Lit.
 Definition c_comma := 44.
 Definition c_quote := 34.
 Definition c_lf := 10.
@@ -172,16 +212,33 @@ Definition is_blank (c : Z) : bool := (c =? c_space) || (c =? c_tab).
 (* an unquoted field must not contain '\r' (read as a line end) nor, for a reader with comment='#', '#' *)
 Definition field_ok (cm : bool) (f : str) : bool :=
   needs_quote f || forallb (fun c => negb (c =? c_cr) && negb (cm && (c =? c_hash))) f.
-(* a one-column row that consists of blanks / tabs only is a blank line to the reader *)
-Definition row_ok (cm : bool) (r : list str) : bool :=
+(* what the tokenizer MODEL needs; a one-column row that consists of blanks / tabs only is a blank line
+   to the reader *)
+Definition row_tok (cm : bool) (r : list str) : bool :=
   forallb (field_ok cm) r &&
   match r with
   | [] => false
   | [f] => needs_quote f || match f with [] => true | _ :: _ => existsb (fun c => negb (is_blank c)) f end
   | _ :: _ :: _ => true
   end.
+Definition well_tok (cm : bool) (rows : list (list str)) : bool := forallb (row_tok cm) rows.
+(* what the real writer / reader need in addition:
+   - a code point is a Unicode scalar value other than NUL: the file is written as UTF-8 (a surrogate
+     code point makes the writer raise UnicodeEncodeError) and the C reader cuts a field at NUL
+     ('a\x00b' reads as 'a');
+   - the first field of a row does not start with an unquoted blank / tab (chunk boundary, see top) *)
+Definition char_ok (c : Z) : bool :=
+  (0 <? c) && (c <? 1114112) && negb ((55296 <=? c) && (c <=? 57343)).
+Definition first_ok (r : list str) : bool :=
+  match r with
+  | f :: _ => needs_quote f || match f with c :: _ => negb (is_blank c) | [] => true end
+  | [] => true
+  end.
+Definition row_ok (cm : bool) (r : list str) : bool :=
+  row_tok cm r && first_ok r && forallb (forallb char_ok) r.
 Definition well_shaped (cm : bool) (rows : list (list str)) : bool := forallb (row_ok cm) rows.
-Definition comment_ok (body : str) : bool := forallb (fun c => negb (c =? c_lf) && negb (c =? c_cr)) body.
+Definition comment_ok (body : str) : bool :=
+  forallb (fun c => negb (c =? c_lf) && negb (c =? c_cr) && char_ok c) body.
 
 (* ---------------- '%.4f' ---------------- *)
 (* the exact value m * 2^e as a fraction *)
@@ -220,7 +277,7 @@ Fixpoint split_dot (s : str) : option (str * str) :=
   | c :: t => if c =? 46 then Some ([], t)
               else match split_dot t with Some (a, b) => Some (c :: a, b) | None => None end
   end.
-Definition parse_fixed4 (s : str) : option Z :=
+Definition parse_fixed4u (s : str) : option Z :=
   match split_dot s with
   | None => None
   | Some (ip, fp) =>
@@ -235,6 +292,114 @@ Definition parse_fixed4 (s : str) : option Z :=
           else None
       end
   end.
+(* an optional '-' in front: the value is negated ('-0.0000' is 0) *)
+Definition parse_fixed4 (s : str) : option Z :=
+  match s with
+  | [] => None
+  | c :: t => if c =? 45 then option_map Z.opp (parse_fixed4u t) else parse_fixed4u s
+  end.
+
+(* ---------------- the CSV file of a blob: Output.blob_to_csv rendered as text ---------------- *)
+(* '%.4f' % x of the exact value x = n/d (d > 0): sign, then the digits of the rounded magnitude.  A double
+   is (-1)^neg * m * 2^e: fmt4_rat_text (dyadic (+-m) e) = fmt4_text neg m e (CsvTextP) -- except for the
+   NEGATIVE ZERO, which a fraction cannot carry: '%.4f' % -0.0 = '-0.0000' = fmt4_text true 0 0, while
+   fmt4_rat_text (0, 1) = '0.0000' (the harness leaves blobs with a -0.0 confidence out of the byte tie). *)
+Definition fmt4_rat_text (x : rat) : str :=
+  if fst x <? 0 then 45 :: fixed4 (fmt4 (- fst x, snd x)) else fixed4 (fmt4 x).
+
+(* json.dumps(s) of a str with ensure_ascii=True: DQUOTE and backslash escaped, \n \r \t \b \f by letter,
+   every other code point outside ' '..'~' as \uXXXX (lower-case hex; above 0xFFFF as a surrogate pair) *)
+Definition hex1 (k : Z) : Z := nth (Z.to_nat k) Lit.hexdigits 48.
+Definition hex4 (k : Z) : str := [hex1 (k / 4096 mod 16); hex1 (k / 256 mod 16); hex1 (k / 16 mod 16); hex1 (k mod 16)].
+Definition u_escape (k : Z) : str := 92 :: 117 :: hex4 k.
+Definition json_char (c : Z) : str :=
+  if c =? 34 then [92; 34]
+  else if c =? 92 then [92; 92]
+  else if c =? 10 then [92; 110]
+  else if c =? 13 then [92; 114]
+  else if c =? 9 then [92; 116]
+  else if c =? 8 then [92; 98]
+  else if c =? 12 then [92; 102]
+  else if (32 <=? c) && (c <=? 126) then [c]
+  else if c <? 65536 then u_escape c
+  else u_escape (55296 + (c - 65536) / 1024 mod 1024) ++ u_escape (56320 + (c - 65536) mod 1024).
+Definition json_str (s : str) : str := 34 :: concat (map json_char s) ++ [34].
+Fixpoint join_with (sep : str) (l : list str) : str :=
+  match l with
+  | [] => []
+  | [x] => x
+  | x :: t => x ++ sep ++ join_with sep t
+  end.
+(* json.dumps(list of str): '[' items separated by ', ' ']' *)
+Definition json_list (l : list str) : str := 91 :: join_with [44; 32] (map json_str l) ++ [93].
+
+(* names = the strings behind the integer names of the case (the inverse of the harness's renaming) *)
+Definition name_str (names : list (Z * str)) (z : Z) : str :=
+  match zassoc z names with Some s => s | None => [] end.
+
+(* the body (after '#') of one comment line.  repo / version = cell_type_mapper.__repository__ / __version__ *)
+Definition hline_text (names : list (Z * str)) (repo version : str) (h : hline) : str :=
+  match h with
+  | HMeta m => Lit.metadata ++ name_str names m
+  | HHier l => Lit.hierarchy ++ json_list (map (name_str names) l)
+  | HReadable l => Lit.readable ++ json_list (map (name_str names) l)
+  | HVersion a =>
+      (match a with O => [] | S O => Lit.algo_corr | _ => Lit.algo_hier end) ++
+      Lit.codebase ++ repo ++ Lit.version ++ version
+  end.
+
+(* the column name f'{readable_level}_{element}' (after the renaming of the confidence column) *)
+Definition nat_digits (n : nat) : str := digits (Z.of_nat n).
+Definition field_name (conf f : nat) : str :=
+  match f with
+  | O => Lit.bootstrapping_probability
+  | S O => if Nat.eqb conf 1 then Lit.correlation_coefficient else Lit.avg_correlation
+  | S (S O) => Lit.aggregate_probability
+  | _ => Lit.directly_assigned
+  end.
+Definition run_name (kind : nat) : str :=
+  match kind with O => Lit.runner_up_assignment | S O => Lit.runner_up_correlation | _ => Lit.runner_up_probability end.
+Definition col_name (names : list (Z * str)) (conf : nat) (k : colkey) : str :=
+  match k with
+  | KId => Lit.cell_id
+  | KLabel rl => name_str names rl ++ Lit.label
+  | KName rl => name_str names rl ++ Lit.name
+  | KAlias rl => name_str names rl ++ Lit.alias
+  | KField rl f => name_str names rl ++ 95 :: field_name conf f
+  | KRun rl kind i => name_str names rl ++ 95 :: run_name kind ++ 95 :: nat_digits i
+  end.
+
+(* a cell: a name; a number through '%.4f' -- or, in a column blob_to_df turned into a pandas category
+   (finding F12), the shortest repr of the double, which is NOT modelled: reprs is that function given as a
+   table by whoever uses the model (the harness computes repr(x) for the numbers of the case); a boolean;
+   the empty field of a NaN *)
+Fixpoint rassoc (x : rat) (l : list (rat * str)) : option str :=
+  match l with
+  | [] => None
+  | (y, s) :: t => if (fst x =? fst y) && (snd x =? snd y) then Some s else rassoc x t
+  end.
+Definition cell_text (names : list (Z * str)) (reprs : list (rat * str)) (cat : bool) (v : option dval) : str :=
+  match v with
+  | None => []
+  | Some (DName z) => name_str names z
+  | Some (DNum r) => if cat then match rassoc r reprs with Some s => s | None => [] end else fmt4_rat_text r
+  | Some (DBool b) => if b then Lit.true_ else Lit.false_
+  end.
+
+(* the table of strings handed to the csv writer: header row, then one row per record *)
+Definition blob_to_csv_table (names : list (Z * str)) (reprs : list (rat * str))
+           (nm : naming) (hier : list Z) (conf : nat) (sticky categ : list Z) (b : blob) : res (list (list str)) :=
+  bind (blob_to_table (fun k v => cell_text names reprs (col_categ categ k) v) nm hier conf sticky b) (fun t =>
+  Ok (map (col_name names conf) (fst t) :: snd t)).
+Definition csv_comment_bodies (names : list (Z * str)) (repo version : str)
+           (nm : naming) (hier : list Z) (meta : option Z) (algo : nat) : list str :=
+  map (hline_text names repo version) (csv_header nm hier meta algo).
+(* the bytes (code points) of the file blob_to_csv writes *)
+Definition blob_to_csv_text (names : list (Z * str)) (reprs : list (rat * str)) (repo version : str)
+           (nm : naming) (hier : list Z) (meta : option Z) (algo : nat)
+           (conf : nat) (sticky categ : list Z) (b : blob) : res str :=
+  bind (blob_to_csv_table names reprs nm hier conf sticky categ b) (fun tb =>
+  Ok (csv_file (csv_comment_bodies names repo version nm hier meta algo) tb)).
 
 (* ---------------- wire ---------------- *)
 Definition of_rows (rows : list (list str)) : sx := of_list (of_list of_LZ) rows.
@@ -284,4 +449,31 @@ Definition run_parse_fixed4 (x : sx) : sx :=
   match sx_LZ x with
   | Some s => sx_ok (of_option I (parse_fixed4 s))
   | None => sx_bad
+  end.
+
+(* tag 1555: (names reprs (repo version) naming hierarchy meta? algo conf (sticky categ) blob)
+   -> (text, comment bodies ok, table well_shaped for the reader with comment='#') or the error.
+   names: ((z codepoints) ...); reprs: (((n d) codepoints) ...) *)
+Definition sx_names : sx -> option (list (Z * str)) := sx_list (sx_pair sx_Z sx_LZ).
+Definition sx_reprs : sx -> option (list (rat * str)) := sx_list (sx_pair sx_rat sx_LZ).
+Definition run_blob_to_csv_text (x : sx) : sx :=
+  match x with
+  | L [ns; rp; L [repo; ver]; nm; h; m; a; c; L [s; g]; b] =>
+      match sx_names ns, sx_reprs rp, sx_LZ repo, sx_LZ ver with
+      | Some ns', Some rp', Some repo', Some ver' =>
+          match sx_naming nm, sx_LZ h, sx_opt sx_Z m, sx_nat a, sx_nat c, sx_LZ s, sx_LZ g with
+          | Some nm', Some h', Some m', Some a', Some c', Some s', Some g' =>
+              match sx_blob b with
+              | Some b' =>
+                  match blob_to_csv_table ns' rp' nm' h' c' s' g' b' with
+                  | Ok tb =>
+                      let bodies := csv_comment_bodies ns' repo' ver' nm' h' m' a' in
+                      sx_ok (L [of_LZ (csv_file bodies tb); of_bool (forallb comment_ok bodies);
+                                of_bool (well_shaped true tb)])
+                  | Err e => sx_err e
+                  end
+              | None => sx_bad end
+          | _, _, _, _, _, _, _ => sx_bad end
+      | _, _, _, _ => sx_bad end
+  | _ => sx_bad
   end.
